@@ -113,9 +113,18 @@ ASSUME = [
 # still obligations (--pointer-check, --bounds-check); pure pointer-arithmetic overflow is not checked for these units
 CHECKS_NPO = [c for c in core.DEFAULT_CHECKS if c != '--pointer-overflow-check']
 UL = lambda e: '(unsigned long)(%s)' % e
-INB = lambda e, extra: '__CPROVER_same_object(%s, line->end) && %s <= %s%s' % (e, UL(e), UL('line->end'), extra)
+INB = lambda e, extra: '__CPROVER_same_object(%s, g_buf_var) && %s <= %s%s' % (e, UL(e), UL('g_buf_var + g_len_var'), extra)
 LINE_INV = (INB('line->p', '') + ' && ' + UL('line->p') + ' >= ' + UL('__CPROVER_loop_entry(line->p)'))
-DECR = UL('line->end') + ' - ' + UL('line->p')
+DECR = UL('g_buf_var + g_len_var') + ' - ' + UL('line->p')
+
+
+def opaque_ok(fn):
+    """API_OPAQUE is only allowed for a function whose body never dereferences the program (mechanical check)."""
+    span = core.function_span(GEN_PARSE, fn)
+    if not span:
+        raise core.ToolError('function %s not found' % fn)
+    body = '\n'.join(core.read_lines(GEN_PARSE)[span[0] - 1:span[1]])
+    return re.search(r'program\s*->', body) is None
 
 
 def units(tier, seed, only=None):
@@ -134,11 +143,11 @@ def units(tier, seed, only=None):
     us.append(core.Unit('orc_line_parse_tokens', SRC, 'h_parse_tokens', enforce='orc_line_parse_tokens',
                         replace=['orc_line_skip_blanks', 'orc_line_add_token'],
                         loops=[{'function': 'orc_line_parse_tokens', 'file': F, 'anchor': 'while (line->p < line->end)',
-                                'invariants': 'line->end == __CPROVER_loop_entry(line->end) && ' + INB('line->p', ' + 1') + ' && '
-                                'line->n_tokens >= 0 && line->n_tokens <= 16 && *line->end == 0 && '
+                                'invariants': 'line->end == g_buf_var + g_len_var && g_len_var >= 0 && g_len_var <= 100000 && __CPROVER_rw_ok(g_buf_var, g_len_var + 1) && ' + INB('line->p', ' + 1') + ' && '
+                                'line->n_tokens >= 0 && line->n_tokens <= 16 && g_buf_var[g_len_var] == 0 && '
                                 '(line->n_tokens > 0 ==> (' + INB('line->tokens[0]', '') + ')) && '
                                 '((0 <= g_tk && g_tk < line->n_tokens) ==> (' + INB('line->tokens[g_tk]', '') + '))',
-                                'assigns': '__CPROVER_object_whole(line), __CPROVER_object_whole(line->end)',
+                                'assigns': '__CPROVER_object_whole(line), __CPROVER_object_whole(g_buf_var)',
                                 'decreases': '1 + ' + DECR}]))
     API = ['orc_program_add_temporary', 'orc_program_add_source', 'orc_program_add_destination',
            'orc_program_add_accumulator', 'orc_program_add_parameter', 'orc_program_add_parameter_float',
@@ -147,13 +156,43 @@ def units(tier, seed, only=None):
            'orc_program_set_n_multiple', 'orc_program_set_n_minimum', 'orc_program_set_n_maximum',
            'orc_program_set_constant_m', 'orc_program_set_2d', 'orc_program_set_name', 'orc_program_set_backup_name',
            'orc_program_new', 'orc_program_append_str_n', 'orc_vector_append', 'orc_parse_add_error_valist']
-    handlers = ['backup', 'flags', 'dotn', 'dotm', 'source', 'dest', 'accumulator', 'constant_str', 'temporary',
-                'parameter', 'parameter_int64', 'parameter_float', 'parameter_double', 'opcode', 'init']
+    # NOT within reach (array-theory blow-up, > 14 GB, also with 5-token lines / loop contracts / opaque API contracts):
+    # orc_parse_handle_source, _dest, _dotn (token loops with an in-body i++) and orc_parse_handle_opcode; listed as
+    # not covered in evidence, never counted as proved.
+    handlers = ['backup', 'flags', 'dotm', 'accumulator', 'constant_str', 'temporary',
+                'parameter', 'parameter_int64', 'parameter_float', 'parameter_double', 'init']
+    TOKLOOP = {
+        'flags': 'for (i=1;i<line->n_tokens;i++) {',
+        'dotn': 'for(i=1;i<line->n_tokens;i++){',
+        'source': 'for(i=3;i<line->n_tokens;i++){',
+        'dest': 'for(i=3;i<line->n_tokens;i++){',
+    }
+    # conjunction written with bitwise & of 0/1 terms: a chain of short-circuit && makes dfcc's symbolic execution of the
+    # invariant superlinear (91 s), & has no control flow (all dereferences in it are valid in every state)
+    PINV = ' & '.join('(%s)' % t for t in [
+        'parser->errors.n_items >= 0', 'parser->errors.n_items <= parser->errors.n_items_alloc', 'parser->errors.n_items_alloc <= 1000032',
+        'parser->errors.n_items_alloc == 0 || __CPROVER_rw_ok(parser->errors.items, sizeof(void *) * parser->errors.n_items_alloc)',
+        'parser->program == __CPROVER_loop_entry(parser->program)', 'parser->errors.n_items >= __CPROVER_loop_entry(parser->errors.n_items)',
+        'parser->program->n_insns >= 0', 'parser->program->n_insns <= 100', 'parser->program->n_src_vars >= 0', 'parser->program->n_src_vars <= 8',
+        'parser->program->n_dest_vars >= 0', 'parser->program->n_dest_vars <= 4', 'parser->program->n_param_vars >= 0', 'parser->program->n_param_vars <= 8',
+        'parser->program->n_const_vars >= 0', 'parser->program->n_const_vars <= 8', 'parser->program->n_temp_vars >= 0', 'parser->program->n_temp_vars <= 16',
+        'parser->program->n_accum_vars >= 0', 'parser->program->n_accum_vars <= 4'])
     for h in handlers:
         fn = 'orc_parse_handle_' + h
-        us.append(core.Unit(fn, SRC, 'h_' + fn, enforce=fn, replace=API + (['orc_parse_find_opcode'] if h == 'opcode' else []), checks=CHECKS_NPO, unwind=34, timeout=900, object_bits=12,
+        if h in TOKLOOP:
+            # Token loops: neither full unwinding to 16 tokens (OOM / 14 min) nor a loop contract (> 20 min) is tractable
+            # with the parser state in scope.  Bounded stand-in: lines of at most TOKMAX tokens, loop fully unwound, API
+            # calls opaque (the handler never reads program state: checked mechanically by opaque_ok).
+            if not opaque_ok(fn):
+                raise core.ToolError('%s reads program state: opaque API contracts not applicable' % fn)
+            tm = 5 if tier == 'quick' else 7
+            us.append(core.Unit(fn, SRC, 'h_' + fn, enforce=fn, replace=API, checks=CHECKS_NPO, unwind=tm + 2, timeout=900, object_bits=12,
+                                cbmc_flags=['--no-array-field-sensitivity'], defines=['API_OPAQUE', 'TOKMAX=%d' % tm], unwindset=['mk_tok_line.0:17'],
+                                bounded='lines of at most %d tokens (token loop fully unwound)' % tm))
+            continue
+        us.append(core.Unit(fn, SRC, 'h_' + fn, enforce=fn, replace=API + (['orc_parse_find_opcode'] if h == 'opcode' else []), checks=CHECKS_NPO, unwind=18, timeout=300, object_bits=12,
                             cbmc_flags=['--no-array-field-sensitivity']))
-    HF = dict(unwind=34, timeout=900, object_bits=12, cbmc_flags=['--no-array-field-sensitivity'], checks=CHECKS_NPO)
+    HF = dict(unwind=18, timeout=300, object_bits=12, cbmc_flags=['--no-array-field-sensitivity'], checks=CHECKS_NPO)
     us.append(core.Unit('orc_parse_add_error_valist', SRC, 'h_orc_parse_add_error_valist', enforce='orc_parse_add_error_valist',
                         replace=['orc_vector_append'], **HF))
     us.append(core.Unit('orc_parse_find_opcode', SRC, 'h_find_opcode', enforce='orc_parse_find_opcode',
@@ -165,14 +204,20 @@ def units(tier, seed, only=None):
     us.append(core.Unit('orc_parse_get_line', SRC, 'h_get_line', enforce='orc_parse_get_line',
                         replace=['orc_parse_find_line_length', 'orc_parse_advance', '_strndup'], **HF))
     us.append(core.Unit('orc_parse_handle_function', SRC, 'h_orc_parse_handle_function', enforce='orc_parse_handle_function',
-                        replace=API + ['orc_parse_sanity_check'], **HF))
+                        replace=API + ['orc_parse_sanity_check'], defines=['API_OPAQUE'] if opaque_ok('orc_parse_handle_function') else [], **HF))
     if only:
         us = [u for u in us if re.search(only, u.name)]
     return us
 
 
+NOT_COVERED = ['orc_parse_handle_source', 'orc_parse_handle_dest', 'orc_parse_handle_dotn', 'orc_parse_handle_opcode',
+               'orc_parse_handle_directive (function-pointer dispatch)', 'orc_parse_sanity_check', 'orc_parse_code (main loop)',
+               'orc_parse_error_freev', 'orc_parse_splat_error', 'orc_parse_full']
+
+
 def run(tier, seed, only=None):
-    return runner.run_property(PROP, units(tier, seed, only), tier, seed, assumptions=ASSUME)
+    return runner.run_property(PROP, units(tier, seed, only), tier, seed, assumptions=ASSUME,
+                               extra_cov={'functions_not_covered': NOT_COVERED})
 
 
 def replay(path):
